@@ -484,6 +484,14 @@ class Ev:
             if callable(target):
                 return target(*self.args_of(n), **{k.arg: self.ev(k.value) for k in n.keywords if k.arg})
             raise self.bad(n)
+        if ((isinstance(f, ast.Name) and f.id == "partial") or (isinstance(f, ast.Attribute) and ast.unparse(f) == "functools.partial")) and "partial" not in self.env and n.args:
+            # functools.partial: the callable with leading positional and keyword arguments bound now
+            target = self.ev(n.args[0])
+            if not callable(target):
+                raise self.bad(n, "partial() of a non-callable")
+            bound = [self.ev(a) for a in n.args[1:]]
+            bkw = {k.arg: self.ev(k.value) for k in n.keywords if k.arg}
+            return lambda *a, **kw: target(*bound, *a, **{**bkw, **kw})
         callee_is_model = (isinstance(f, ast.Name) and f.id in self.env and callable(self.env[f.id])) or isinstance(f, ast.Attribute)
         if n.keywords and not callee_is_model and not all(k.arg in ("key", "reverse", "default", "start", "strict") for k in n.keywords):
             raise self.bad(n, "keyword arguments")
